@@ -193,9 +193,18 @@ def insertion_cases():
         mk('missing-space-after-quote', ["_m1 'x'_m2 y"], CIF_MISSING_SPACE,
            lambda t, c: (set_item(t, '_m1', q('x')), set_item(t, '_m2', u('y'))))
         mk('missing-space-in-list', ["_m3 ['a''b']"], CIF_MISSING_SPACE, lambda t, c: set_item(t, '_m3', ('list', (q('a'), q('b')))))
+        mk('missing-space-before-nested-list', ['_m3 [ abcdef[1 2] 7 ]'], CIF_MISSING_SPACE,
+           lambda t, c: set_item(t, '_m3', ('list', (u('abcdef'), ('list', (u('1'), u('2'))), u('7')))))
+        mk('missing-space-before-list-in-loop', ['loop_', '_n1', '_n2', '1.2345(6)[1 2]'], CIF_MISSING_SPACE,
+           lambda t, c: t['entries'].append(('loop', ['_n1', '_n2'], [[u('1.2345(6)'), ('list', (u('1'), u('2')))]])))
         if slot != 'after-loop':
             # an opening bracket inside a white-space delimited value: the value ends there, the list is a stray value
             mk('missing-space-before-list', ['_m4 abc[1 2]'], CIF_MISSING_SPACE, lambda t, c: set_item(t, '_m4', u('abc')))
+            # (values at least as long as the keywords data_ / save_, and beginnings of those keywords)
+            mk('missing-space-before-list-long-value', ['_m4 abcdefgh[1 2]'], CIF_MISSING_SPACE, lambda t, c: set_item(t, '_m4', u('abcdefgh')))
+            mk('missing-space-before-list-number', ['_m4 1.2345(6)[1 2]'], CIF_MISSING_SPACE, lambda t, c: set_item(t, '_m4', u('1.2345(6)')))
+            mk('missing-space-before-list-keyword-start', ['_m4 dat[1 2]'], CIF_MISSING_SPACE, lambda t, c: set_item(t, '_m4', u('dat')))
+            mk('missing-space-before-table', ["_m4 value{'k':1}"], CIF_MISSING_SPACE, lambda t, c: set_item(t, '_m4', u('value')))
             # a table key outside any table: the colon is where white space is assumed; what follows is a stray value
             mk('missing-space-at-key-colon', ["_m5 'k':v"], CIF_MISSING_SPACE, lambda t, c: set_item(t, '_m5', q('k')))
         # the same inside a list, where a key - quoted or a text block - is just a value lacking its separator
